@@ -22,7 +22,8 @@ Qed.
 Lemma scan_wf ign node :
   forall rp mask, wf_fnode node = true -> wf_entry false (fst (scan_node ign rp mask node)) = true.
 Proof.
-  induction node as [c IHc|d|t|] using fnode_ind2; intros rp mask Hw; try exact Hw; try reflexivity.
+  induction node as [c IHc|d|t| |] using fnode_ind2; intros rp mask Hw; try exact Hw; try reflexivity;
+    try (destruct mask; reflexivity).
   rewrite scan_node_dir. rewrite wf_fnode_dir in Hw. apply andb_prop in Hw. destruct Hw as [Hl Hs].
   pose proof (scan_list_names ign rp mask c) as Hn.
   destruct (scan_list ign rp mask c) as [es evs] eqn:Hsl. cbn [fst] in *.
@@ -40,7 +41,8 @@ Proof.
       fold (wf_list false es'). rewrite (IHl Hrest Hlr es' evs' eq_refl), andb_true_r. cbn [andb].
       destruct (scan_child_spec ign rp mask n ch) as [[_ H]|[(_ & _ & H)|(_ & mask' & _ & H)]];
         rewrite Hsc in H; injection H as -> ->; try reflexivity.
-      apply Hch. exact Hwch. }
+      + destruct ch; try reflexivity. destruct mask; reflexivity.
+      + apply Hch. exact Hwch. }
   destruct mask.
   - rewrite wf_entry_phantom, Hes, Hn, Hs. reflexivity.
   - rewrite wf_entry_dir, Hes, Hn, Hs. reflexivity.
